@@ -1293,14 +1293,6 @@ func (x *Exec) loopHasCallbacks(li *loopInfo) bool {
 // seedFrame instantiates the frame axioms for the reference parameters of the function under
 // verification, so that ground terms about them exist in the new heap (E-matching needs a seed).
 func (x *Exec) seedFrame(p *Path, fs *frameSet, base, hb string) {
-	in := func(t string, set []string) bool {
-		for _, s := range set {
-			if s == t {
-				return true
-			}
-		}
-		return false
-	}
 	var names []string
 	for n := range x.cur.params {
 		names = append(names, n)
@@ -1311,26 +1303,30 @@ func (x *Exec) seedFrame(p *Path, fs *frameSet, base, hb string) {
 		if v.K != KTerm {
 			continue
 		}
-		var comps []string
-		switch v.S {
-		case SRefL:
-			comps = []string{"Kind", "Lptr"}
-			if !in(v.T, fs.lists) && !fs.all {
-				comps = append(comps, "Larr", "Loff", "Llen", "Lcap")
-			}
-		case SRefO:
-			comps = []string{"Kind", "Optr"}
-			if !in(v.T, fs.objs) && !fs.all {
-				comps = append(comps, "Omap")
-			}
-		default:
+		if fs.all {
 			continue
 		}
-		if fs.all {
-			comps = nil
+		notIn := func(set []string) string {
+			cs := []string{fmt.Sprintf("(< %s (next %s))", v.T, base)}
+			for _, s := range set {
+				cs = append(cs, fmt.Sprintf("(not (= %s %s))", v.T, s))
+			}
+			return "(and " + strings.Join(cs, " ") + ")"
 		}
-		for _, c := range comps {
-			p.assume(fmt.Sprintf("(=> (< %s (next %s)) (= (select (%s %s) %s) (select (%s %s) %s)))", v.T, base, c, hb, v.T, c, base, v.T))
+		emit := func(comps []string, cond string) {
+			for _, c := range comps {
+				p.assume(fmt.Sprintf("(=> %s (= (select (%s %s) %s) (select (%s %s) %s)))", cond, c, hb, v.T, c, base, v.T))
+			}
+		}
+		switch v.S {
+		case SRefL:
+			emit([]string{"Kind", "Lptr"}, notIn(nil))
+			emit([]string{"Larr", "Loff", "Llen", "Lcap"}, notIn(fs.lists))
+		case SRefO:
+			emit([]string{"Kind", "Optr"}, notIn(nil))
+			emit([]string{"Omap"}, notIn(fs.objs))
+		default:
+			continue
 		}
 		if v.S == SRefL && !fs.all {
 			arr := fmt.Sprintf("(select (Larr %s) %s)", base, v.T)
